@@ -103,6 +103,7 @@ type Stats struct {
 	SolverNs       int64
 	Queries        int64
 	Unexplored     int64 // pending prefixes left when a budget stopped the run
+	InfeasibleDropped int64 // paths kept alive by an undecided branch query and later shown infeasible
 	MaxPC          int
 }
 
@@ -112,6 +113,7 @@ func (s *Stats) Add(o *Stats) {
 	s.Aborted += o.Aborted
 	s.Truncated += o.Truncated
 	s.Unsupported += o.Unsupported
+	s.InfeasibleDropped += o.InfeasibleDropped
 	s.Exited += o.Exited
 	s.SymPaths += o.SymPaths
 	s.Instr += o.Instr
@@ -240,6 +242,7 @@ type explorer struct {
 	prefix    []int32
 	taken     []int32
 	pc        []string
+	pcSet     map[string]bool // the conjuncts of pc, for the syntactic shortcut in decide
 	inputs    []inputDecl
 	occ       map[string]int
 	abbr      *abbrevTable
@@ -320,6 +323,7 @@ func (e *explorer) runeClass(x symI, name string, pred func(rune) bool) value {
 
 func (e *explorer) resetPath(prefix []int32) {
 	e.prefix, e.taken, e.pc, e.inputs = prefix, nil, nil, nil
+	e.pcSet = map[string]bool{}
 	e.occ = map[string]int{}
 	e.abbr = &abbrevTable{m: map[string]abbrevDef{}, byBd: map[string]string{}}
 	e.atoms, e.atomIdx = nil, map[string]int{}
@@ -413,6 +417,9 @@ func (e *explorer) query(extra string, want bool) (string, map[string]string) {
 			names = append(names, in.name)
 		}
 	}
+	if len(as) == 0 && len(names) == 0 {
+		return "sat", nil // the empty conjunction: no solver call needed
+	}
 	t0 := time.Now()
 	r, m := e.sol.check(as, e.abbr, names)
 	e.stats.SolverNs += int64(time.Since(t0))
@@ -428,6 +435,7 @@ func (e *explorer) addPC(c string) {
 		return
 	}
 	e.pc = append(e.pc, c)
+	e.pcSet[c] = true
 }
 
 // decide resolves a symbolic boolean. Decision encoding: bit0 = value,
@@ -437,6 +445,15 @@ func (e *explorer) decide(cond string, kind string) bool {
 	case "true":
 		return true
 	case "false":
+		return false
+	}
+	// a condition that is literally a conjunct of the path condition (or the negation
+	// of one) is decided without the solver and without a decision entry: differential
+	// harnesses make the implementation's comparisons a second time in the oracle
+	if e.pcSet[cond] {
+		return true
+	}
+	if e.pcSet[sNot(cond)] {
 		return false
 	}
 	k := len(e.taken)
@@ -620,8 +637,16 @@ func (e *explorer) assert(c value, msg string) {
 			e.stats.AssertConcrete++
 			return
 		}
-		_, m := e.query("", true)
-		e.violation("assert", msg, "concrete", m, e.stack())
+		// the path itself must be feasible: branch queries that timed out keep both
+		// sides, so a concretely false assertion on an infeasible path is not a finding
+		switch r, m := e.query("", true); r {
+		case "sat":
+			e.violation("assert", msg, "concrete", m, e.stack())
+		case "unsat":
+			e.stats.InfeasibleDropped++
+		default:
+			e.violation("undecided", msg+" (false on a path whose feasibility the solver could not decide)", "unknown", m, "")
+		}
 		panic(pathAbort{"assertion concretely false"})
 	case symB:
 		e.stats.AssertQueries++
@@ -667,6 +692,19 @@ func (e *explorer) crossCheck(neg, msg string) {
 }
 
 func (e *explorer) stack() string { return "" }
+
+// pathViolation reports a violation found at the end of a path (panic, budget)
+// after confirming that the path condition is satisfiable; see assert.
+func (e *explorer) pathViolation(kind, msg, verdict, stack string) {
+	switch r, m := e.query("", true); r {
+	case "sat":
+		e.violation(kind, msg, verdict, m, stack)
+	case "unsat":
+		e.stats.InfeasibleDropped++
+	default:
+		e.violation("undecided", msg+" (on a path whose feasibility the solver could not decide)", "unknown", m, "")
+	}
+}
 
 // ---- running ----
 
@@ -828,8 +866,7 @@ func (e *explorer) runPath(fn *ssa.Function, prefix []int32) {
 			case budgetExceeded:
 				e.stats.Truncated++
 				e.trunc[r.what]++
-				_, m := e.query("", true)
-				e.violation("hang", "budget exceeded: "+r.what, "budget", m, "")
+				e.pathViolation("hang", "budget exceeded: "+r.what, "budget", "")
 			case engineUnsupported:
 				e.stats.Unsupported++
 				e.unsup[r.msg]++
@@ -837,18 +874,16 @@ func (e *explorer) runPath(fn *ssa.Function, prefix []int32) {
 					fmt.Fprintf(os.Stderr, "unsupported: %s\n", r.msg)
 				}
 			case targetPanic:
-				_, m := e.query("", true)
-				e.violation("panic", "uncaught target panic: "+panicString(i, r.v), "path", m, "")
+				e.pathViolation("panic", "uncaught target panic: "+panicString(i, r.v), "path", "")
 			default:
 				// Go runtime error raised inside the interpreter while executing
 				// target code (nil deref, index out of range, failed assertion):
 				// the same error the real code would raise.
-				_, m := e.query("", true)
 				st := ""
 				if e.cfg.Verbose {
 					st = string(debug.Stack())
 				}
-				e.violation("panic", fmt.Sprintf("uncaught runtime panic: %v", r), "path", m, st)
+				e.pathViolation("panic", fmt.Sprintf("uncaught runtime panic: %v", r), "path", st)
 			}
 		}()
 		// package initialisation (bodies only for own packages) then harness
